@@ -45,6 +45,7 @@ var Quirks = []Quirk{
 	{ID: "C01-body-attr-recursive-validated-user-type", Detect: hasBodyAttrRecursiveValidatedUT, SigAny: []string{"client/cli: undefined: _"}},
 	{ID: "C01-streaming-payload-validated-alias", Detect: hasStreamingPayloadValidatedAlias, SigAny: []string{"server/types: invalid operation: _ != nil (mismatched types", "client/types: invalid operation: _ != nil (mismatched types"}},
 	{ID: "C04-validation-written-in-header-mapping-not-enforced", Detect: hasHeaderMappingValidation},
+	{ID: "C10-nested-collection-wrappers-share-one-validator", Detect: hasValidatedNestedCollection},
 	{ID: "C01-bytes-param-with-length-validation", Detect: hasBytesParamWithLength, SigAny: []string{"client/cli: undefined: _"}},
 	{ID: "C01-result-type-required-validated-response-header", Detect: hasResultTypeRequiredValidatedHeader, SigAny: []string{"client/encode_decode: invalid operation: _ != nil (mismatched types"}},
 }
@@ -309,6 +310,58 @@ func hasHeaderMappingValidation(d *m.Design) bool {
 		}
 		return false
 	})
+}
+
+// hasValidatedNestedCollection: a gRPC design in which a collection nested in a
+// collection (or its key / element) carries a validation.
+func hasValidatedNestedCollection(d *m.Design) bool {
+	grpc := false
+	for _, s := range d.Services {
+		if s.HasGRPC {
+			grpc = true
+		}
+	}
+	if !grpc {
+		return false
+	}
+	found := false
+	seen := map[*m.Attr]bool{}
+	var walk func(a *m.Attr, inColl bool)
+	has := func(a *m.Attr) bool { return a != nil && !a.V.Empty() }
+	walk = func(a *m.Attr, inColl bool) {
+		if a == nil || a.Type == nil || seen[a] || found {
+			return
+		}
+		seen[a] = true
+		switch a.Type.Kind {
+		case m.Array:
+			if inColl && (has(a) || has(a.Type.Elem)) {
+				found = true
+			}
+			walk(a.Type.Elem, true)
+		case m.Map:
+			if inColl && (has(a) || has(a.Type.Key) || has(a.Type.Val)) {
+				found = true
+			}
+			walk(a.Type.Key, true)
+			walk(a.Type.Val, true)
+		case m.Object, m.Union:
+			for _, f := range a.Type.Fields {
+				walk(f.Attr, false)
+			}
+		}
+	}
+	for _, ut := range d.Types {
+		walk(ut.Attr, false)
+	}
+	for _, s := range d.Services {
+		for _, meth := range s.Methods {
+			walk(meth.Payload, false)
+			walk(meth.Result, false)
+			walk(meth.StreamingPayload, false)
+		}
+	}
+	return found
 }
 
 // hasBytesParamWithLength: a Bytes attribute with a length validation carried
